@@ -75,8 +75,64 @@ fn build_response(version: &str, code: u16, items: &str, body: &[u8]) -> Option<
     Some(r)
 }
 
+/// A scripted origin server on 127.0.0.1:80 (the client's URL parser cannot express another port): answers
+/// `/h<i>` with hop i of the chain, one connection per request, and records the request lines it saw.
+fn serve_chain(l: std::net::TcpListener, hops: Vec<(u16, Option<String>, Vec<u8>)>, expect: usize) -> std::thread::JoinHandle<Vec<String>> {
+    use std::io::{Read, Write};
+    std::thread::spawn(move || {
+        let mut seen = Vec::new();
+        l.set_nonblocking(true).ok();
+        let t0 = std::time::Instant::now();
+        while seen.len() < expect && t0.elapsed() < Duration::from_millis(1500) {
+            let (mut s, _) = match l.accept() {
+                Ok(x) => x,
+                Err(_) => { std::thread::sleep(Duration::from_micros(200)); continue; }
+            };
+            s.set_nonblocking(false).ok();
+            s.set_read_timeout(Some(Duration::from_millis(300))).ok();
+            let mut buf = Vec::new();
+            let mut b = [0u8; 2048];
+            while !buf.windows(4).any(|w| w == b"\r\n\r\n") {
+                match s.read(&mut b) { Ok(0) | Err(_) => break, Ok(n) => buf.extend_from_slice(&b[..n]) }
+            }
+            let line = String::from_utf8_lossy(&buf).lines().next().unwrap_or("").to_string();
+            seen.push(line.clone());
+            let path = line.split(' ').nth(1).unwrap_or("");
+            let idx: usize = path.trim_start_matches("/h").split(|c: char| !c.is_ascii_digit()).next().unwrap_or("").parse().unwrap_or(usize::MAX);
+            let resp = match hops.get(idx) {
+                Some((code, Some(loc), _)) => format!("HTTP/1.1 {} R\r\nLocation: {}\r\nContent-Length: 0\r\n\r\n", code, loc).into_bytes(),
+                Some((code, None, body)) => { let mut v = format!("HTTP/1.1 {} F\r\nContent-Length: {}\r\nX-Hop: {}\r\n\r\n", code, body.len(), idx).into_bytes(); v.extend(body); v }
+                None => b"HTTP/1.1 404 N\r\nContent-Length: 0\r\n\r\n".to_vec(),
+            };
+            let _ = s.write_all(&resp);
+        }
+        seen
+    })
+}
+
 pub fn exec(f: &[String]) -> Option<String> {
     match (f[0].as_str(), f.len()) {
+        // client <follow 0|1> <start url hex> <hops: code:lochex|-:bodyhex joined by ,>  →  `<canon final response> | <request lines seen, hex, joined by ,>`
+        ("client", 4) => {
+            let follow = f[1] == "1";
+            let url = String::from_utf8(unhex(&f[2])).ok()?;
+            let hops: Vec<(u16, Option<String>, Vec<u8>)> = f[3].split(',').filter_map(|h| {
+                let p: Vec<&str> = h.split(':').collect();
+                if p.len() != 3 { return None; }
+                Some((p[0].parse().ok()?, if p[1] == "-" { None } else { Some(String::from_utf8(unhex(p[1])).ok()?) }, unhex(if p[2] == "~" { "" } else { p[2] })))
+            }).collect();
+            let l = match std::net::TcpListener::bind("127.0.0.1:80") { Ok(l) => l, Err(_) => return Some("PORT-80-UNAVAILABLE".into()) };
+            let redirects = hops.iter().take_while(|h| h.1.is_some()).count();
+            let expect = if follow { redirects + 1 } else { 1 };
+            let server = serve_chain(l, hops, expect);
+            let r = guarded(move || {
+                let mut client = humphrey::Client::new();
+                client.get(&url).map_err(|e| e.to_string()).and_then(|req| req.with_redirects(follow).send().map_err(|e| e.to_string()))
+            });
+            let seen = server.join().unwrap_or_default();
+            let resp = match r { Err(_) => "PANIC".to_string(), Ok(Err(_)) => "ERR".to_string(), Ok(Ok(r)) => canon_response(&r) };
+            Some(format!("{} | {}", resp, seen.iter().map(|l| hx(l.as_bytes())).collect::<Vec<_>>().join(",")))
+        }
         // resp_parse <hex bytes> <cuts> <expected|->
         ("resp_parse", 4) => {
             let bytes = unhex(&f[1]);
@@ -312,6 +368,37 @@ pub fn gen(out: &mut Out, thorough: bool, seed: u64) {
             out.count(if blen == 0 { "ser:empty-body" } else if with_cl { "ser:body+cl" } else { "ser:body-no-cl" });
             let fr: Vec<&str> = f.iter().map(|s| s.as_str()).collect();
             out.case(&fr, &r, true);
+        }
+    }
+    // (4) the client: redirect chains of length 0..5 over {301,302,307}, relative and absolute Location, followed or not
+    let probe = exec(&["client".into(), "0".into(), hex(b"http://127.0.0.1/h0"), "200:-:6f6b".into()]);
+    if probe.as_deref() == Some("PORT-80-UNAVAILABLE") {
+        out.extra.insert("client".into(), "127.0.0.1:80 cannot be bound: redirect-following clause not exercised in this run".into());
+    } else {
+        let nclient = if thorough { 1500 } else { 150 };
+        for i in 0..nclient {
+            let n = (i % 6) as usize;
+            let mut hops: Vec<String> = Vec::new();
+            for k in 0..n {
+                let code = *rng.pick(&[301u16, 302, 307]);
+                let loc = match rng.below(4) {
+                    0 => format!("/h{}", k + 1),
+                    1 => format!("http://127.0.0.1/h{}", k + 1),
+                    2 => format!("/h{}?step={}", k + 1, k),
+                    _ => format!("http://127.0.0.1/h{}?abs={}", k + 1, k),
+                };
+                hops.push(format!("{}:{}:~", code, hex(loc.as_bytes())));
+            }
+            let blen = rng.below(20) as usize;
+            let body = rng.bytes(blen);
+            hops.push(format!("{}:-:{}", rng.pick(&[200u16, 404, 500, 201, 303]), hx(&body)));
+            let start = if rng.chance(1, 2) { "http://127.0.0.1/h0" } else { "http://127.0.0.1/h0?q=1" };
+            let follow = if rng.chance(1, 5) { "0" } else { "1" };
+            let f = vec!["client".to_string(), follow.into(), hex(start.as_bytes()), hops.join(",")];
+            let r = exec(&f).unwrap_or_else(|| "UNSUPPORTED".into());
+            out.count(&format!("client:hops={}:follow={}", n, follow));
+            let fr: Vec<&str> = f.iter().map(|s| s.as_str()).collect();
+            out.case(&fr, &r, n >= 1);
         }
     }
 }
